@@ -59,12 +59,13 @@ Lemma hop_step_l inst x sx h : R inst x sx ->
   | HThis _ => inst = true
   | HParent _ => exists p, parent_of t (s_lexc sx) = Some p
   | HSelf s | HStatic s => static_name t s = true
+  | HNamed c s => static_name t s = true /\ exists cc, get_class t c = Some cc
   end ->
   lift (spec_hop t sx h) (fun sx' x' => R (match h with HThis _ | HParent _ => inst | _ => false end) x' sx')
        (hop_step t x h).
 Proof.
   intros (Hlex & Hlsb & Hinst & Hself & Hanc & [c Hc] & [cd Hcd]) Hpre.
-  destruct h as [m|s|s|m]; unfold spec_hop, hop_step, lift.
+  destruct h as [m|s|s|m|nc s]; unfold spec_hop, hop_step, lift.
   - (* $this->m() *)
     specialize (Hinst Hpre). rewrite Hinst.
     rewrite (bind2_defining _ _ _ (object_method_resolve t Hcl Hac Hk (s_run sx) c m Hc)).
@@ -98,6 +99,12 @@ Proof.
     destruct (resolve t p m) as [e|] eqn:He; simpl; [|reflexivity].
     eexists. split; [reflexivity|]. unfold R; simpl. fin.
     eapply ancestor_trans; [exact Hanc|]. eapply anc_step; [exact Hcd|exact Hext|]. eapply resolve_ancestor; eauto.
+  - (* C::s() *)
+    destruct Hpre as [Hs [cc Hcc]]. unfold static_call.
+    rewrite (bind2_defining _ _ _ (static_from_resolve t Hcl Hac s nc cc Hs Hcc)).
+    destruct (resolve t nc s) as [d|] eqn:Hd; simpl; [|reflexivity].
+    eexists. split; [reflexivity|]. unfold R, lsb; simpl. fin.
+    eapply resolve_ancestor; eauto.
 Qed.
 
 Lemma hops_l hs : forall inst x sx, R inst x sx -> hops_ok t inst sx hs = true ->
@@ -109,8 +116,12 @@ Proof.
                | HThis _ => inst = true
                | HParent _ => exists p, parent_of t (s_lexc sx) = Some p
                | HSelf s | HStatic s => static_name t s = true
+               | HNamed c s => static_name t s = true /\ exists cc, get_class t c = Some cc
                end).
-  { destruct h; try assumption. destruct (parent_of t (s_lexc sx)) as [p|]; [eauto|discriminate]. }
+  { destruct h; try assumption.
+    - destruct (parent_of t (s_lexc sx)) as [p|]; [eauto|discriminate].
+    - apply andb_true_iff in Hpre. destruct Hpre as [H1 H2]. split; [assumption|].
+      unfold is_class in H2. destruct (get_class t c); [eauto|discriminate]. }
   pose proof (hop_step_l inst x sx h HR Hp) as H. unfold lift in H.
   cbn [hops spec_hops]. destruct (spec_hop t sx h) as [sx'|].
   - destruct H as [x' [Hx' HR']]. rewrite Hx'.
